@@ -93,7 +93,19 @@ theorem C06_hashedwrite_streaming (P : HashPrims) (buf : Bytes) (accepts : List 
     (HW.writeAll HW.init buf accepts).hash P = P.dataHash (HW.writeAll HW.init buf accepts).written := by
   simp [HW.hash, HW_writeAll_inv HW.init buf accepts rfl]
 
+/-- The same under **inner-writer faults**: the caller presents the unconsumed rest again after every transient error of the
+    inner writer (event `0`), the inner writer accepts any number of bytes otherwise.  The digest is the data hash of exactly the
+    bytes that reached the inner writer, and those bytes are a prefix of the caller's data (nothing written twice, nothing
+    skipped) — for every buffer and every event sequence. -/
+theorem C06_hashedwrite_streaming_faulty (P : HashPrims) (buf : Bytes) (events : List Nat) :
+    (HW.writeRetry HW.init buf events).hash P = P.dataHash (HW.writeRetry HW.init buf events).written
+    ∧ ∃ k, k ≤ buf.length ∧ (HW.writeRetry HW.init buf events).written = buf.take k := by
+  refine ⟨by simp [HW.hash, HW_writeRetry_inv HW.init buf events rfl], ?_⟩
+  simpa [HW.init] using HW_writeRetry_prefix HW.init buf events
+
 /-! ### Non-vacuity -/
+example : (HW.writeRetry HW.init [1, 2, 3, 4, 5] [2, 0, 0, 1, 0, 9]).written = [1, 2, 3, 4, 5] := by decide
+
 example : (merge ⟨fun _ => Hash.zero, fun b => ⟨0, 0, 0, UInt64.ofNat b.length⟩, fun _ => Hash.zero, fun _ _ => Hash.zero⟩
     branching Memo.init ((List.range 12).map fun i => ⟨⟨1, 2, 3, UInt64.ofNat (i * 4)⟩, i + 1⟩)).parents.length = 1 := by
   decide +kernel
